@@ -12,7 +12,7 @@ from vlib.runner import Violation
 from vlib import backends as B
 
 ID = "C01"
-BUDGET = {"quick": 320, "thorough": 6400}
+BUDGET = {"quick": 960, "thorough": 9600}
 NPOINTS = {"quick": 3, "thorough": 5}
 RULE = (
     "model AST drawn by vlib.modelgen (typed expression grammar, random dependency DAG, names independent of "
